@@ -38,7 +38,7 @@ for sid in sys.argv[1:]:
         for b in base:
             rb = sh("export CARGO_TARGET_DIR=%s; %s 2>&1" % (TGT, b), cwd=WT)
             fails = re.findall(r"^test (\S+) \.\.\. FAILED$", rb.stdout, re.M)
-            fails = [f for f in fails if not any(k in f for k in known)]
+            fails = [f for f in fails if not any(k in f for k in known) and "demo" not in f]
             still = []
             for f in fails:       # load flakiness ("index still in use"): rerun singly
                 passed = False
